@@ -26,10 +26,15 @@ type PropInfo struct {
 	Assumptions []string
 }
 
+// ownershipClause: shared by every property (rules/own.go).
+const ownershipClause = " For every schedule: memory that is recycled in code this property's entry points reach has one owner at a time — nothing aliasing a sync.Pool object outlives its Put and it is put back once (POOL-OWN), what atomic.Pointer.Load returns is only read (ATOMIC-OWN), a slice handed over through a channel is not refilled by the sender unless it came back or the ring has at least cap+2 buffers (HANDOFF-OWN), a guarded container handed out of its critical section is moved out, not shared (LOCK-ESCAPE)."
+
 func PropByID(id string) *PropInfo {
 	for i := range Props {
 		if Props[i].ID == id {
-			return &Props[i]
+			p := Props[i]
+			p.Explanation += ownershipClause
+			return &p
 		}
 	}
 	return nil
